@@ -433,6 +433,11 @@ func generate(rng *rand.Rand, tier string) []interface{} {
 		}
 		ins = append(ins, Input{Kind: "local", Tag: "fifo", Items: items})
 	}
+	// ---- M. in-memory connection with a backlog: the receiver's handler is busy ---------
+	for _, n := range []int{600, 1200} {
+		ins = append(ins, Input{Kind: "local", Tag: "backlog", Backlog: n})
+	}
+
 	// ---- L. a Write of the sending side fails part-way (write deadline), sending goes on ----
 	for i := 0; i < 40*scale; i++ {
 		level := []string{"router", "conn"}[i%2]
